@@ -47,7 +47,35 @@ def _is_count_ref(F, B, o, depth):
     if o.get("kind") == "call":
         key = callee_of(o["term"])
         return returns_count_ref(F, key, depth + 1)
+    if o.get("kind") == "arg":
+        # a private helper that is handed the atomic itself (`fn release(count: &AtomicUsize) -> bool`): the receiver is the count
+        # word iff every caller passes a reference to it
+        return _arg_is_count_ref(F, B.b, o["arg"], depth + 1)
     return False
+
+
+def _arg_is_count_ref(F, b, k, depth):
+    if b.get("reachable") or b["kind"] not in ("Fn", "AssocFn"):
+        return False
+    cache = F.__dict__.setdefault("_count_arg_cache", {})
+    ck = (b["key"], k)
+    if ck in cache:
+        return cache[ck]
+    cache[ck] = False
+    sites = 0
+    ok = True
+    for c in F.body_list:
+        CB = None
+        for bl in c["blocks"]:
+            t = bl["term"]
+            if t["k"] == "call" and callee_of(t) == b["key"] and len(t["args"]) >= k:
+                if CB is None:
+                    CB = cfg.Body(c)
+                sites += 1
+                if not _is_count_ref(F, CB, CB.origin(t["args"][k - 1]), depth + 1):
+                    ok = False
+    cache[ck] = bool(sites) and ok
+    return cache[ck]
 
 
 def returns_count_ref(F, key, depth=0):
